@@ -10,3 +10,5 @@ import KojenVerif.Props.C07
 #print axioms KojenVerif.C07.C07_key_stable_across_models
 #print axioms KojenVerif.C07.C07_shipped_sm_schemes_classified
 #print axioms KojenVerif.C07.C07_shipped_other_templates_static
+#print axioms KojenVerif.C07.C07_static_vs_dynamic
+#print axioms KojenVerif.C07.C07_shipped_static_tags_caps
